@@ -233,66 +233,78 @@ def build_modules_probed(harness, archs, extra_flags=()):
     Returns ({arch: path}, {arch: log}, {arch: {feature: [types not accepted]}})."""
     src = os.path.join(VERIF, "harness", "h_%s.cpp" % harness)
     feats = harness_features(src)
-    res, errs, rejected = {}, {}, {}
+    extra_flags = list(extra_flags)
 
     def flags_for(masks):
         return ["-DXV_OFF_%s=%d" % (f, masks.get(f, 0)) for f in feats]
 
-    def one(arch):
-        target = os.path.join(OBJ, "%s.%s.so" % (arch, harness))
-        mfile = target + ".masks.json"
-        # 1. reuse the last accepted masks if the object is still valid with them
-        try:
-            masks = json.load(open(mfile))
-        except Exception:
-            masks = {}
-        ok, log = build_object(target, harness_cmd(arch, src, list(extra_flags) + flags_for(masks)), [src])
-        if ok and masks and not _masks_still_needed(arch, src, feats, masks, extra_flags):
-            ok = False  # something that was rejected compiles now: redo from scratch
-            masks = {}
-            ok, log = build_object(target, harness_cmd(arch, src, list(extra_flags) + flags_for(masks)), [src])
-        if not ok:
-            # 2. probe every feature, all types at once first, then type by type
-            masks = {}
-            for f in feats:
-                base = harness_cmd(arch, src, list(extra_flags) + ["-DXV_PROBING", "-DXV_PROBE_FEATURE=" + f], shared=False)
-                allmask_others = ["-DXV_OFF_%s=1023" % g for g in feats]
-                if probe_compile("%s.%s.%s.all" % (arch, harness, f), base + allmask_others + ["-DXV_PROBE_ALL_TYPES"]):
-                    continue
-                m = 0
-                for code, tn in enumerate(TYPE_CODES):
-                    if not probe_compile("%s.%s.%s.%s" % (arch, harness, f, tn), base + allmask_others + ["-DXV_PROBE_TYPE=" + tn]):
-                        m |= 1 << code
-                masks[f] = m
-            ok, log = build_object(target, harness_cmd(arch, src, list(extra_flags) + flags_for(masks)), [src])
-            if ok:
-                json.dump(masks, open(mfile, "w"))
-        return arch, target, ok, log, masks
+    def target_of(arch):
+        return os.path.join(OBJ, "%s.%s.so" % (arch, harness))
 
+    def load_masks(arch):
+        try:
+            return json.load(open(target_of(arch) + ".masks.json"))
+        except Exception:
+            return {}
+
+    def full_build(arch, masks):
+        return build_object(target_of(arch), harness_cmd(arch, src, extra_flags + flags_for(masks)), [src])
+
+    def probe(arch, f, tn):
+        base = harness_cmd(arch, src, extra_flags + ["-DXV_PROBING", "-DXV_PROBE_FEATURE=" + f], shared=False)
+        others = ["-DXV_OFF_%s=1023" % g for g in feats]
+        sel = ["-DXV_PROBE_ALL_TYPES"] if tn is None else ["-DXV_PROBE_TYPE=" + tn]
+        return probe_compile("%s.%s.%s.%s" % (arch, harness, f, tn or "all"), base + others + sel)
+
+    res, errs, masks_of = {}, {}, {}
     with ThreadPoolExecutor(max_workers=NPROC) as ex:
-        for arch, target, ok, log, masks in ex.map(one, archs):
+        # A. the previously accepted set (or everything), if it still builds and every rejection still holds
+        def phase_a(arch):
+            masks = load_masks(arch)
+            ok, log = full_build(arch, masks)
+            if ok and masks:
+                for f, m in masks.items():
+                    for code, tn in enumerate(TYPE_CODES):
+                        if m >> code & 1 and probe(arch, f, tn):
+                            return arch, False, masks, "a rejected unit compiles now"
+            return arch, ok, masks, log
+        todo = []
+        for arch, ok, masks, log in ex.map(phase_a, archs):
             if ok:
-                res[arch] = target
-                rejected[arch] = {f: [TYPE_CODES[c] for c in range(10) if m >> c & 1] for f, m in masks.items() if m}
+                res[arch] = target_of(arch)
+                masks_of[arch] = masks
             else:
-                errs[arch] = log
+                todo.append(arch)
+        if todo:
+            # B. every feature with all types at once
+            pairs = [(a, f) for a in todo for f in feats]
+            allok = dict(zip(pairs, ex.map(lambda p: probe(p[0], p[1], None), pairs)))
+            # C. type by type where that failed
+            triples = [(a, f, tn) for (a, f) in pairs if not allok[(a, f)] for tn in TYPE_CODES]
+            tok = dict(zip(triples, ex.map(lambda t: probe(*t), triples)))
+            for a in todo:
+                m = {}
+                for f in feats:
+                    if allok[(a, f)]:
+                        continue
+                    bits = 0
+                    for code, tn in enumerate(TYPE_CODES):
+                        if not tok[(a, f, tn)]:
+                            bits |= 1 << code
+                    m[f] = bits
+                masks_of[a] = m
+            # D. the real objects
+            for arch, (ok, log) in zip(todo, ex.map(lambda a: full_build(a, masks_of[a]), todo)):
+                if ok:
+                    res[arch] = target_of(arch)
+                    json.dump(masks_of[arch], open(target_of(arch) + ".masks.json", "w"))
+                else:
+                    errs[arch] = log
+    rejected = {a: {f: [TYPE_CODES[c] for c in range(10) if m >> c & 1] for f, m in masks_of.get(a, {}).items() if m} for a in res}
     return res, errs, rejected
 
 
-def _masks_still_needed(arch, src, feats, masks, extra_flags):
-    """True when every (feature, type) recorded as rejected is still rejected by the current tree."""
-    harness = os.path.basename(src)[2:-4]
-    for f, m in masks.items():
-        base = harness_cmd(arch, src, list(extra_flags) + ["-DXV_PROBING", "-DXV_PROBE_FEATURE=" + f], shared=False)
-        allmask_others = ["-DXV_OFF_%s=1023" % g for g in feats]
-        for code, tn in enumerate(TYPE_CODES):
-            if m >> code & 1:
-                if probe_compile("%s.%s.%s.%s" % (arch, harness, f, tn), base + allmask_others + ["-DXV_PROBE_TYPE=" + tn]):
-                    return False
-    return True
-
-
-def build_driver(name="xvdrive", libs=("-ldl", "-lpthread"), extra=()):
+def build_driver(name="xvdrive", libs=("-ldl", "-lpthread", "-rdynamic"), extra=()):
     src = os.path.join(VERIF, "engine", name + ".cpp")
     target = os.path.join(OBJ, name)
     # strict IEEE reference semantics: SSE2 scalar arithmetic, no contraction, no fast-math
